@@ -82,3 +82,19 @@ Definition validate_pyd (s' : sig) (o : verdicts) (coerce : bool) (p : pparams) 
   | None => None end.
 Definition invoke_pyd (s : sig) (cm : ctxmode) (ctx : json) (o : verdicts) (coerce : bool) (p : pparams) : invoke :=
   match validate_pyd (excluded_sig s cm) o coerce p with Some kw => call_with s cm ctx kw | None => InvInvalid end.
+
+(* exclude_param=predicate (validators/base.py:_signature, every validator class): the parameters the predicate selects - here by
+   their names [xs] - are removed, together with the context parameter, from the signature the request is bound to and validated
+   against; the body then sees its own defaults for them (dependency injection) *)
+Definition sig_exclude_all (xs : list string) (s : sig) : sig := filter (fun p => negb (mem_str (pname p) xs)) s.
+Definition excluded_sig_x (s : sig) (cm : ctxmode) (xs : list string) : sig := sig_exclude_all xs (excluded_sig s cm).
+Definition invoke_base_x (s : sig) (cm : ctxmode) (xs : list string) (ctx : json) (p : pparams) : invoke :=
+  match validate_bind (excluded_sig_x s cm xs) p with Some kw => call_with s cm ctx kw | None => InvInvalid end.
+Definition invoke_js_x (s : sig) (cm : ctxmode) (xs : list string) (ctx : json) (sc : schema) (p : pparams) : invoke :=
+  match validate_js (excluded_sig_x s cm xs) sc p with Some kw => call_with s cm ctx kw | None => InvInvalid end.
+Definition invoke_pyd_x (s : sig) (cm : ctxmode) (xs : list string) (ctx : json) (o : verdicts) (coerce : bool) (p : pparams) : invoke :=
+  match validate_pyd (excluded_sig_x s cm xs) o coerce p with Some kw => call_with s cm ctx kw | None => InvInvalid end.
+(* what a direct call of the function the CLIENT sees (the signature minus the excluded parameters) binds, widened by the
+   excluded parameters at their defaults *)
+Definition widen (s : sig) (e' : env) : env :=
+  map (fun p => (pname p, match get (pname p) e' with Some v => v | None => Default end)) s.
